@@ -265,7 +265,8 @@ def member_instance(h):
     h.check('member-is-an-instance-of-the-nested-solver-class-of-the-ensembles-dimension', 'ok',
             ok=(once('init') and by['init'][0][0] == [2]))
     h.check('strict-ranges-and-their-mode-handed-over-iff-set', 'ok', ok=ok_ranges)
-    h.check('limits-handed-over', 'ok', ok=once('SetEvaluationLimits') and by['SetEvaluationLimits'][0][0][0] is vals['_maxiter'] and by['SetEvaluationLimits'][0][0][1] is vals['_maxfun'])
+    h.check('limits-handed-over', 'ok', ok=once('SetEvaluationLimits') and by['SetEvaluationLimits'][0][0][0] is vals['_maxiter'] and by['SetEvaluationLimits'][0][0][1] is vals['_maxfun']
+            and len(by['SetEvaluationLimits'][0][0]) == 2 and not by['SetEvaluationLimits'][0][1].get('new'))      # as TOTALS: a member is bound by the ensemble's limits, not by them plus what its monitor already holds
     h.check('termination-constraints-penalty-handed-over', 'ok',
             ok=(once('SetTermination') and by['SetTermination'][0][0][0] is vals['_termination'] and
                 once('SetConstraints') and by['SetConstraints'][0][0][0] is vals['_constraints'] and
@@ -555,3 +556,34 @@ def lattice_points_integer_bins(h):
     h.check('every-member-starts-inside-the-ranges',
             'forall(0, len(pts), lambda k: lo[0] <= pts[k][0] and pts[k][0] <= up[0] and lo[1] <= pts[k][1] and pts[k][1] <= up[1])',
             pts=pts, lo=lo, up=up)
+
+
+@contract('C07/ensemble.SetNestedSolver', ['C07', 'C09'], ENS + '.SetNestedSolver', native=False)
+def set_nested_solver(h):
+    """SetNestedSolver(solver) records the solver class or the configured instance and NOTHING else: whatever the ensemble
+    was configured with before (strict ranges, limits, monitors) is neither read into the given object nor changed, so the
+    call commutes with the other Set* calls; a configured instance is not modified"""
+    if not h.is_sym():
+        h.unsupported('symbolic only')
+    kind = h.choice('nested_solver_given_as', ['configured-instance', 'class'])
+    strict = h.choice('ensemble_has_strict_ranges', [True, False])
+    calls = []
+    inst_fields = dict(_useStrictRange=False, _strictMin=h.clist([]), _strictMax=h.clist([]), nDim=2, tag='NESTED')
+    if kind == 'configured-instance':
+        nested = h.obj(None, **inst_fields)
+        for nm in ('SetStrictRanges', 'SetEvaluationLimits', 'SetConstraints', 'SetPenalty'):
+            h.set_field(nested, nm, h.fn('NESTED_' + nm, sym=(lambda nm_: (lambda H, I, a, k: calls.append(nm_)))(nm)))
+        before = dict(h.st.heap[nested])
+    else:
+        nested = h.get('mystic/scipy_optimize.py::PowellDirectionalSolver')
+    mn, mx = h.vec('strictMin', 2, nd=True), h.vec('strictMax', 2, nd=True)
+    fields = dict(_solver=h.get('mystic/scipy_optimize.py::NelderMeadSimplexSolver'), _useStrictRange=strict, _strictMin=mn, _strictMax=mx,
+                  _useTightRange=None, _useClipRange=None, _maxiter=h.int('maxiter'), _maxfun=h.int('maxfun'), nDim=2, _live=h.bool('live'))
+    s = h.obj(ENS, **fields)
+    h.call(h.getattr(s, 'SetNestedSolver'), nested)
+    h.check('the-given-solver-is-recorded', 'same(s._solver, n)', s=s, n=nested)
+    cell = h.st.heap[s]
+    h.check('nothing-else-of-the-ensemble-changes', 'ok', ok=all(cell[f] is fields[f] for f in fields if f != '_solver') and set(cell) == set(fields))
+    if kind == 'configured-instance':
+        now = h.st.heap[nested]
+        h.check('the-configured-instance-is-not-touched', 'ok', ok=(not calls and set(now) == set(before) and all(now[f] is before[f] for f in before)))
